@@ -4,6 +4,7 @@ mod c02;
 mod c10;
 mod c12;
 mod c13;
+mod c14;
 mod c16;
 mod c17;
 mod enc;
@@ -43,6 +44,7 @@ fn main() {
             "C02T" => c02::case(&mut rng, true),
             "C10" => c10::case(&mut rng),
             "C15" => c10::cleanup_case(&mut rng),
+            "C14" => c14::case(&mut rng),
             "C12" => c12::case(&mut rng, false),
             "C12T" => c12::case(&mut rng, true),
             "C13" => c13::case(&mut rng, false),
